@@ -87,6 +87,11 @@ inductive DStep (inp f : Nat → Nat) : DSt → DSt → Prop
   | consume (d) : 1 ≤ d.c.tC.cached → DStep inp f d d.consume1
   | refresh (d t m) : m ∈ d.c.hist (lead d.c.hasW t) → (d.c.thr t).k ≤ m.val → (t = .W → d.c.hasW = true) → DStep inp f d { d with c := refresh d.c t m }
   | publish (d t) : (t = .W → d.c.hasW = true) → DStep inp f d { d with c := publish d.c t }
+  /-- `Detached::go_back(n)` of the consumer: it un-reads its last `n` items (none of them released yet). -/
+  | cback (d n) : lastVal d.c.hC + n ≤ d.c.tC.pos →
+      DStep inp f d { d with c := goBack d.c .C n, log := d.log.take (d.c.tC.pos - n) }
+  /-- `Detached::go_back(n)` of the producer: it withdraws its last `n` unpublished items (and may write them again). -/
+  | pback (d n) : lastVal d.c.hP + n ≤ d.c.tP.pos → DStep inp f d { d with c := goBack d.c .P n }
 
 inductive DReach (L : Nat) (hasW : Bool) (inp f : Nat → Nat) : DSt → Prop
   | init (mem) : DReach L hasW inp f ⟨init L hasW, mem, []⟩
@@ -96,7 +101,7 @@ inductive DReach (L : Nat) (hasW : Bool) (inp f : Nat → Nat) : DSt → Prop
 def outVal (hasW : Bool) (inp f : Nat → Nat) (q : Nat) : Nat := if hasW then f (inp q) else inp q
 
 structure DInv (inp f : Nat → Nat) (d : DSt) : Prop where
-  done : ∀ q, d.c.tC.pos ≤ q → q < (if d.c.hasW then d.c.tW.pos else d.c.tP.pos) → d.mem (q % d.c.L) = outVal d.c.hasW inp f q
+  done : ∀ q, lastVal d.c.hC ≤ q → q < (if d.c.hasW then d.c.tW.pos else d.c.tP.pos) → d.mem (q % d.c.L) = outVal d.c.hasW inp f q
   raw : d.c.hasW = true → ∀ q, d.c.tW.pos ≤ q → q < d.c.tP.pos → d.mem (q % d.c.L) = inp q
   log : d.log = (List.range d.c.tC.pos).map (outVal d.c.hasW inp f)
 
@@ -136,6 +141,8 @@ theorem DReach.machine {L hasW inp f d} (r : DReach L hasW inp f d) : Reach L ha
       exact Reach.step (Reach.step ih a) b
     | refresh t m hm hc ht => exact Reach.step ih (Step.refresh _ t m hm hc ht)
     | publish t ht => exact Reach.step ih (Step.publish _ t ht)
+    | cback n hn => exact Reach.step ih (Step.goBack _ .C n hn (by simp))
+    | pback n hn => exact Reach.step ih (Step.goBack _ .P n hn (by simp))
 
 theorem Reach.params {L hasW s} (r : Reach L hasW s) : s.L = L ∧ s.hasW = hasW := by
   induction r with
@@ -190,6 +197,20 @@ theorem publish_frame (s : St) (t : Role) : (publish s t).tP.pos = s.tP.pos ∧ 
     (publish s t).tC.pos = s.tC.pos ∧ (publish s t).L = s.L ∧ (publish s t).hasW = s.hasW := by
   cases t <;> simp [publish, St.setThr, St.thr, St.pushMsg]
 
+theorem goBack_frame_C (s : St) (n : Nat) : (goBack s .C n).tP.pos = s.tP.pos ∧ (goBack s .C n).tW.pos = s.tW.pos ∧
+    (goBack s .C n).tC.pos = s.tC.pos - n ∧ (goBack s .C n).L = s.L ∧ (goBack s .C n).hasW = s.hasW ∧ (goBack s .C n).hC = s.hC := by
+  simp [goBack, St.setThr, St.thr]
+theorem goBack_frame_P (s : St) (n : Nat) : (goBack s .P n).tP.pos = s.tP.pos - n ∧ (goBack s .P n).tW.pos = s.tW.pos ∧
+    (goBack s .P n).tC.pos = s.tC.pos ∧ (goBack s .P n).L = s.L ∧ (goBack s .P n).hasW = s.hasW ∧ (goBack s .P n).hC = s.hC := by
+  simp [goBack, St.setThr, St.thr]
+theorem hC_after (s : St) (t : Role) : (moveLocal (access s t (s.thr t).pos) t 1).hC = s.hC := by
+  cases t <;> simp [moveLocal, access, St.setThr, St.thr]
+theorem hC_refresh (s : St) (t : Role) (m : Msg) : (refresh s t m).hC = s.hC := by
+  cases t <;> simp [refresh, St.setThr, St.thr]
+/-- The consumer's published position after any publication: its own position if it was the consumer's, unchanged otherwise. -/
+theorem lastC_publish (s : St) (t : Role) : lastVal (publish s t).hC = if t = .C then s.tC.pos else lastVal s.hC := by
+  cases t <;> simp [publish, St.setThr, St.thr, St.pushMsg]
+
 /-- **C02 (content invariant).** In every reachable state of every interleaving: the slots between the consumer's and
     the worker's true positions hold the fully processed items, those between worker and producer the raw ones, and
     the consumer's log is exactly the processed input, in order, one entry per position — a prefix of what was produced. -/
@@ -204,12 +225,17 @@ theorem dreach_inv {L : Nat} {hasW : Bool} {inp f : Nat → Nat} (hL : 1 ≤ L) 
     obtain ⟨pL, pW⟩ := hm.params
     obtain ⟨o3, o2⟩ := inv.order
     have hLpos : 0 < d0.c.L := by rw [pL]; exact hL
+    -- the producer never believes it may pass the consumer's *published* position (plus one lap minus one)
+    have jP := inv.j2 .P; have kP := inv.j2k .P; have bC := inv.j1b .C
+    simp only [St.thr, St.hist, lead, slack] at jP kP bC
     cases st with
     | produce h1 =>
       obtain ⟨p1, eW, eC, p3, p4⟩ := after_P d0.c
+      have eH := hC_after d0.c .P
+      simp only [St.thr] at eH
       refine ⟨?_, ?_, ?_⟩
       · intro q h1' h2'
-        simp only [DSt.produce1, p3, p4, eC, eW, p1] at h1' h2' ⊢
+        simp only [DSt.produce1, p3, p4, eC, eW, p1, eH] at h1' h2' ⊢
         cases hW : d0.c.hasW
         · have := o2 hW
           simp only [hW, Bool.false_eq_true, if_false] at h2' ⊢
@@ -236,10 +262,12 @@ theorem dreach_inv {L : Nat} {hasW : Bool} {inp f : Nat → Nat} (hL : 1 ≤ L) 
       · simp only [DSt.produce1, p4, eC]; exact ih.log
     | work hW h1 =>
       obtain ⟨eP, p1, eC, p3, p4⟩ := after_W d0.c
+      have eH := hC_after d0.c .W
+      simp only [St.thr] at eH
       have := o3 hW
       refine ⟨?_, ?_, ?_⟩
       · intro q h1' h2'
-        simp only [DSt.work1, p3, p4, eC, eP, p1, hW, if_true] at h1' h2' ⊢
+        simp only [DSt.work1, p3, p4, eC, eP, p1, hW, if_true, eH] at h1' h2' ⊢
         by_cases hq : q = d0.c.tW.pos
         · subst hq
           simp only [if_true, outVal]
@@ -256,10 +284,12 @@ theorem dreach_inv {L : Nat} {hasW : Bool} {inp f : Nat → Nat} (hL : 1 ≤ L) 
       · simp only [DSt.work1, p4, eC]; exact ih.log
     | consume h1 =>
       obtain ⟨eP, eW, p1, p3, p4⟩ := after_C d0.c
+      have eH := hC_after d0.c .C
+      simp only [St.thr] at eH
       refine ⟨?_, ?_, ?_⟩
       · intro q h1' h2'
-        simp only [DSt.consume1, p3, p4, eW, eP, p1] at h1' h2' ⊢
-        exact ih.done q (by omega) h2'
+        simp only [DSt.consume1, p3, p4, eW, eP, p1, eH] at h1' h2' ⊢
+        exact ih.done q h1' h2'
       · intro hW q h1' h2'
         simp only [DSt.consume1, p3, p4, eW, eP, p1] at hW h1' h2' ⊢
         exact ih.raw hW q h1' h2'
@@ -268,19 +298,38 @@ theorem dreach_inv {L : Nat} {hasW : Bool} {inp f : Nat → Nat} (hL : 1 ≤ L) 
         congr 1
         simp only [List.map_cons, List.map_nil]
         congr 1
-        apply ih.done _ (Nat.le_refl _)
+        apply ih.done _ bC
         cases hW : d0.c.hasW
         · have := o2 hW; simp; omega
         · have := o3 hW; simp; omega
     | refresh t m hm' hc ht =>
       obtain ⟨eP, eW, eC, eL, eH⟩ := refresh_frame d0.c t m
-      exact ⟨by intro q h1 h2; simp only [eP, eW, eC, eL, eH] at h1 h2 ⊢; exact ih.done q h1 h2,
+      have eHC := hC_refresh d0.c t m
+      exact ⟨by intro q h1 h2; simp only [eP, eW, eC, eL, eH, eHC] at h1 h2 ⊢; exact ih.done q h1 h2,
              by intro hW q h1 h2; simp only [eP, eW, eC, eL, eH] at hW h1 h2 ⊢; exact ih.raw hW q h1 h2,
              by simp only [eH, eC]; exact ih.log⟩
     | publish t ht =>
       obtain ⟨eP, eW, eC, eL, eH⟩ := publish_frame d0.c t
-      exact ⟨by intro q h1 h2; simp only [eP, eW, eC, eL, eH] at h1 h2 ⊢; exact ih.done q h1 h2,
-             by intro hW q h1 h2; simp only [eP, eW, eC, eL, eH] at hW h1 h2 ⊢; exact ih.raw hW q h1 h2,
+      have eHC := lastC_publish d0.c t
+      refine ⟨?_, by intro hW q h1 h2; simp only [eP, eW, eC, eL, eH] at hW h1 h2 ⊢; exact ih.raw hW q h1 h2,
              by simp only [eH, eC]; exact ih.log⟩
+      intro q h1 h2
+      simp only [eP, eW, eC, eL, eH, eHC] at h1 h2 ⊢
+      refine ih.done q ?_ h2
+      split at h1 <;> omega
+    | cback n hn =>
+      obtain ⟨eP, eW, eC, eL, eH, eHC⟩ := goBack_frame_C d0.c n
+      refine ⟨by intro q h1 h2; simp only [eP, eW, eL, eH, eHC] at h1 h2 ⊢; exact ih.done q h1 h2,
+              by intro hW q h1 h2; simp only [eP, eW, eL, eH] at hW h1 h2 ⊢; exact ih.raw hW q h1 h2, ?_⟩
+      simp only [eH, eC]
+      rw [ih.log, ← List.map_take, List.take_range, Nat.min_eq_left (Nat.sub_le _ _)]
+    | pback n hn =>
+      obtain ⟨eP, eW, eC, eL, eH, eHC⟩ := goBack_frame_P d0.c n
+      refine ⟨?_, by intro hW q h1 h2; simp only [eP, eW, eL, eH] at hW h1 h2 ⊢; exact ih.raw hW q h1 (by omega),
+              by simp only [eH, eC]; exact ih.log⟩
+      intro q h1 h2
+      simp only [eP, eW, eL, eH, eHC] at h1 h2 ⊢
+      refine ih.done q h1 ?_
+      split at h2 <;> simp_all <;> omega
 
 end MRB.Conc
